@@ -5,6 +5,7 @@ from .. import families, checks
 from ..core import Prog, witness_tasks, text_id
 
 PROP = "C03"
+TASK_LIMIT = 600
 LEVEL = "translation_validation"
 RULE = ("C01 program universe generated with backend=jax; every function of the emitted module is executed "
         "symbolically in the JAX dialect (functional _values_i, returned array literal, python control flow on traced "
@@ -113,7 +114,11 @@ def real_jax_runs(prog, view, m):
             try:
                 out = view.concrete_jax(fn, inp, disable_jit=disable)
             except Exception as e:
-                prog.fact(f"jax|real|{fn}|{tag}", False, "JaxRunFailed", f"{fn} ({tag}) failed for real: {str(e)[-300:]}")
+                import subprocess as _sp
+                if isinstance(e, _sp.TimeoutExpired):
+                    prog.skip(f"jax|real|{fn}|{tag}", "the jax subprocess did not finish within its wall limit (machine load)")
+                    continue
+                prog.fact(f"jax|real|{fn}|{tag}", False, "JaxRunFailed", f"{fn} ({tag}) failed for real: {type(e).__name__}: {str(e)[-300:]}")
                 continue
             bad = []
             for n in names:
